@@ -71,7 +71,7 @@ Qed.
 
 Lemma visit_step_calls_ok s i s' : calls_ok s -> visit_step s i = Some s' -> calls_ok s'.
 Proof.
-  unfold calls_ok. intros Hc H. unfold visit_step in H. destruct (rd s); try discriminate.
+  unfold calls_ok. intros Hc H. unfold visit_step in H. destruct (rd_cancel (rd s)) eqn:Erc; [|discriminate]. unfold visit_body in H.
   destruct (nth_error (calls s) i) as [c|] eqn:En; [|discriminate].
   pose proof (Forall_nth _ _ _ _ Hc En) as Hci.
   destruct (c_tab c) eqn:Et; [|discriminate]. cbn in H.
@@ -138,6 +138,7 @@ Proof.
   - destruct seen; inversion H; subst; auto.
   - inversion H; subst; auto.
   - inversion H; subst; unfold notify; cbn. destruct (notified s); auto.
+  - destruct (all_visited (calls s)); inversion H; subst; auto.
 Qed.
 
 Lemma calls_ok_step s e s' fx : calls_ok s -> bound_ok s -> sstep s e = Some (s', fx) -> calls_ok s'.
@@ -259,14 +260,14 @@ Definition cl_rank (c : cpc) : nat :=
   match c with CIdle => 0 | C7 => 1 | C6 => 2 | C5 => 3 | C4 => 4 | C3 => 5 | C2 => 6 | C1 => 7 | C0 => 8 end.
 Definition rd_rank (cur : status) (r : rpc) : nat :=
   match r with
-  | RDone => 0 | RNone => 13 | D8 => 1 | D6 => 2 | D5 _ => 3 | D4 _ => 4 | D3 _ => 5 | D2 _ => 6
+  | RDone => 0 | RNone => 14 | D8 => 1 | D6 => 2 | D5 _ => 3 | D4 _ => 4 | D3 _ => 5 | DC _ => 6 | D2 _ => 7
   | D1 seen =>
       match seen with
-      | ActiveClosing | ActiveClosed | PassiveClosing | PassiveClosed => 7
-      | _ => if status_eqb cur seen then 7 else 9
+      | ActiveClosing | ActiveClosed | PassiveClosing | PassiveClosed => 8
+      | _ => if status_eqb cur seen then 8 else 10
       end
-  | D0 => 8
-  | R3 XErr0 => 10 | R2 => 11 | R0 => 12 | R4 _ => 13 | R3 _ => 14 | RLock _ _ => 15 | RLook _ _ => 16
+  | D0 => 9
+  | R3 XErr0 => 11 | R2 => 12 | R0 => 13 | R4 _ => 14 | R3 _ => 15 | RLock _ _ => 16 | RLook _ _ => 17
   end.
 Definition a_rank (a : apc) : nat := match a with A1 => 4 | A2 => 3 | A2w => 2 | A4 => 1 | ADone => 0 end.
 Definition h_rank (h : hpc) : nat := match h with HBound _ => 3 | H0 _ => 2 | H1 => 1 | _ => 0 end.
@@ -334,7 +335,7 @@ Qed.
 
 Lemma visit_step_mu s i s' : visit_step s i = Some s' -> mu s' < mu s.
 Proof.
-  unfold visit_step. destruct (rd s); try discriminate.
+  unfold visit_step. destruct (rd_cancel (rd s)) eqn:Erc; [|discriminate]. unfold visit_body.
   destruct (nth_error (calls s) i) as [c|] eqn:En; [|discriminate].
   destruct (c_tab c); [|discriminate]. cbn.
   destruct (c_vis c) eqn:Ev; [discriminate|]. cbn.
@@ -395,7 +396,7 @@ Qed.
 Lemma status_eqb_refl x : status_eqb x x = true.
 Proof. destruct x; reflexivity. Qed.
 
-Lemma d1_rank_fresh x : rd_rank x (D1 x) = 7.
+Lemma d1_rank_fresh x : rd_rank x (D1 x) = 8.
 Proof. cbn. rewrite status_eqb_refl. destruct x; reflexivity. Qed.
 
 Ltac call_upd En :=
@@ -446,6 +447,7 @@ Proof.
   - destruct seen; intros H; inversion H; subst; unfold mu; cbn; rewrite Erd; cbn; lia.
   - intros H; inversion H; subst; unfold mu; cbn; rewrite Erd; cbn; lia.
   - intros H; inversion H; subst; unfold mu, notify; cbn. destruct (notified s); cbn; rewrite Erd; cbn; lia.
+  - destruct (all_visited (calls s)); intros H; inversion H; subst; unfold mu; cbn; rewrite Erd; cbn; lia.
 Qed.
 
 (* internal_steps_terminate: every internal step strictly decreases [mu] *)
@@ -477,15 +479,15 @@ Proof.
     destruct (sstep s e) as [[s1 fx]|] eqn:E; [|discriminate].
     pose proof (internal_step_mu _ _ _ _ Hi E). specialize (IH s1 s' Ha H). cbn [length]. lia.
 Qed.
-Definition cfg_noabort : cfg := mkCfg true true false true true.
-Definition cfg_nodup : cfg := mkCfg true true true false true.
+Definition cfg_noabort : cfg := mkCfg true true false true true true.
+Definition cfg_nodup : cfg := mkCfg true true true false true true.
 
 Definition issue_and_write : list sevent := EIssue :: repeat (ECaller 0 false WOk) 4.
 
 (* reply with body codec 0 that does not decode, then the connection is lost *)
 Definition hang_history : list sevent :=
   issue_and_write ++ [EFrame (FrReply 0 FErr0); EReader true; EReader true; EReader true;
-                      EConnLost; EReader true; EReader true; EReader true; EReader true].
+                      EConnLost; EReader true; EReader true; EReader true].
 
 Lemma no_orphan_prefix_refuted_lemma :
   exists s c, srun_cfg cfg_noabort live_session hang_history = Some s /\
@@ -495,7 +497,7 @@ Proof. eexists; eexists. split; [vm_compute; reflexivity|]. vm_compute. auto. Qe
 
 Lemma hang_fixed :
   exists s c, srun live_session (issue_and_write ++ [EFrame (FrReply 0 FErr0); EReader true; EReader true; EReader true;
-                      EConnLost] ++ repeat (EReader true) 8) = Some s /\
+                      EConnLost] ++ repeat (EReader true) 9) = Some s /\
               terminal s = true /\ nth_error (calls s) 0 = Some c /\ c_dones c = 1 /\ c_stat c = StBadMsg /\ rd s = RDone.
 Proof. eexists; eexists. split; [vm_compute; reflexivity|]. vm_compute. auto. Qed.
 
